@@ -198,6 +198,7 @@ fn spawn_workers(prop: &str, seed: u64, runs: u64, jobs: u64, deadline: u64, exe
             let _ = cmd.arg("--log");
         }
         let mut child = cmd.spawn().expect("spawn worker");
+        let child_pid = child.id();
         let stdout = child.stdout.take().unwrap();
         handles.push(std::thread::spawn(move || {
             let mut agg = Agg::default();
@@ -265,6 +266,7 @@ fn spawn_workers(prop: &str, seed: u64, runs: u64, jobs: u64, deadline: u64, exe
                 }
             }
             let status = child.wait().ok();
+            crate::runner::cleanup_scratch_of(child_pid);
             if !ended {
                 let how = format!("{:?}", status);
                 if let Some((i, rs)) = current {
@@ -298,6 +300,7 @@ fn spawn_workers(prop: &str, seed: u64, runs: u64, jobs: u64, deadline: u64, exe
 
 fn run_with_timeout(cmd: &mut Command, secs: u64) -> Option<(i32, String)> {
     let mut child = cmd.stdout(Stdio::piped()).stderr(Stdio::null()).spawn().ok()?;
+    let child_pid = child.id();
     let t0 = Instant::now();
     loop {
         match child.try_wait() {
@@ -306,12 +309,14 @@ fn run_with_timeout(cmd: &mut Command, secs: u64) -> Option<(i32, String)> {
                 if let Some(mut o) = child.stdout.take() {
                     let _ = std::io::Read::read_to_string(&mut o, &mut s);
                 }
+                crate::runner::cleanup_scratch_of(child_pid);
                 return Some((st.code().unwrap_or(-1), s));
             }
             Ok(None) => {
                 if t0.elapsed() > Duration::from_secs(secs) {
                     let _ = child.kill();
                     let _ = child.wait();
+                    crate::runner::cleanup_scratch_of(child_pid);
                     return None;
                 }
                 std::thread::sleep(Duration::from_millis(20));
